@@ -113,6 +113,31 @@ def iterViolations (skip clip : Bool) (cs : List CEval) (r : Nat) : List (Label 
   else if clip then (iterConstraintData cs r).map fun d => (d.label, maxR d.violation 0)
   else (iterConstraintData cs r).map fun d => (d.label, d.violation)
 
+/-! the `labels=` argument of `iter_constraint_data` / `iter_violations` -/
+
+/-- the constraints visited: `labels is None` (the default) — all of them, in model order; otherwise exactly the labels
+    given, **in the order given** (an empty iterable visits nothing; a label given twice is visited twice), up to the
+    first label that is not a constraint, where `ValueError` is raised (second component; the generator has yielded the
+    data of the labels before it) -/
+def selectGo (cs : List CEval) : List Label → List CEval × Bool
+  | [] => ([], false)
+  | l :: t => match cs.find? (fun c => c.label = l) with
+    | some c => (c :: (selectGo cs t).1, (selectGo cs t).2)
+    | none => ([], true)
+
+def selectCons (labels : Option (List Label)) (cs : List CEval) : List CEval × Bool :=
+  match labels with
+  | none => (cs, false)
+  | some ls => selectGo cs ls
+
+/-- `iter_constraint_data(sample, labels=labels)`: what is yielded, and whether it ends in `ValueError` -/
+def iterConstraintDataL (labels : Option (List Label)) (cs : List CEval) (r : Nat) : List CData × Bool :=
+  (iterConstraintData (selectCons labels cs).1 r, (selectCons labels cs).2)
+
+/-- `iter_violations(sample, skip_satisfied, clip, labels=labels)` -/
+def iterViolationsL (skip clip : Bool) (labels : Option (List Label)) (cs : List CEval) (r : Nat) : List (Label × Rat) × Bool :=
+  (iterViolations skip clip (selectCons labels cs).1 r, (selectCons labels cs).2)
+
 /-- `check_feasible(sample, rtol, atol)`; `hardOnly` = the generator skips soft constraints
     (`true`: the code after the repair of D36; `false`: every constraint counts) -/
 def checkFeasibleWith (hardOnly : Bool) (atol rtol : Rat) (cs : List CEval) (r : Nat) : Bool :=
